@@ -82,9 +82,11 @@ def one_case(ctx, mon, rate, accel, time, accum, ambient, via):
         ctx.violation("exception", {"fn": via, "args": [rate, accel, time, accum],
                                     "ambient": mon.ambient, "exception": repr(exc)})
         return
-    if mon.last is None:
+    if accum != "clear" and not (type(accum) is int and 0 <= accum < M):
         return
-    want = mon.last
+    if time < 1 or not S.lt_in_domain(rate, accel, time):
+        return
+    want = S.lt_expected(rate, accel, time, "clear" if accum == "clear" else accum)
     if via == "moveDistLM":
         ctx.count("monitor:alias moveDistLM")
         if got != want[0] or type(got) is not int:
@@ -123,6 +125,13 @@ def run(ctx):
             classes = [x for x in classes if not x.startswith("accum=")] + ["accum=0"]
         elif c < 0.25 and accum == "clear":
             via = "default-accum"
+        if accum == "clear" and via in ("move_dist_lt", "moveDistLMA") and rng.random() < 0.3:
+            accum = G.fresh_clear(rng)
+            classes.append("'clear' passed as a string built at run time")
+        if rng.random() < 0.01:
+            from plotink import ebb_calc as _ec
+            G.failed_call(rng, _ec.move_dist_lt, 4)
+            classes.append("after a failed call (malformed arguments, exception caught by the caller)")
         classes.append("ambient:%s" % ambient.kind)
         classes.append("via:" + via)
         ctx.case(classes, (rate, accel, time, accum, ambient.kind, ambient.value, via))
@@ -137,7 +146,9 @@ def run(ctx):
     chained(ctx, mon, ctx.budget(300, 3000))
     import_time_phase(ctx, ctx.budget(1500, 12000))
     mon = install(ctx)
-    for cls in ("module imported under low precision", "history: related arguments after a previous call", "T=1", "T=2", "T=3", "T:4..1e3", "T:1e3..1e6", "T:1e6..2^24", "T:2^24..2^32",
+    for cls in ("'clear' passed as a string built at run time",
+                "after a failed call (malformed arguments, exception caught by the caller)",
+                "module imported under low precision", "history: related arguments after a previous call", "T=1", "T=2", "T=3", "T:4..1e3", "T:1e3..1e6", "T:1e6..2^24", "T:2^24..2^32",
                 "accel=0", "accel=+-1", "accel odd neg", "accel odd pos", "accel even",
                 "r1=0,accel<0", "r1=0,accel>0", "rate at +-(2^31-1)", "rate reverses inside move",
                 "accum=clear", "accum=0", "accum=2^31-1", "accum=other", "total==kM", "total==kM-1",
